@@ -459,8 +459,14 @@ ExecValue(code, b) ==
   IF code \notin DOMAIN Acts THEN Null
   ELSE CASE Acts[code].kind = "num" -> NumA(Acts[code].tag)
          [] Acts[code].kind = "ret" -> Obj(("tag" :> Str(Acts[code].tag)) @@ ("b" :> Obj(b)))
+         [] Acts[code].kind = "addfact" -> Str(Acts[code].tag)
          [] OTHER -> Null
-ExecFails(code) == code \in DOMAIN Acts /\ Acts[code].kind = "throw"
+\* an execution fails when its script throws, or when it writes (Env.AddFact, with the
+\* caller's keys) and the location refuses the write
+ExecFails(code, writable) ==
+  code \in DOMAIN Acts /\ (Acts[code].kind = "throw" \/ (Acts[code].kind = "addfact" /\ ~writable))
+\* the fact an "addfact" action writes: id = its tag
+MadeFact(code) == Obj("made" :> Str(Acts[code].tag))
 
 \* ProcessEvent: rule finding (FindRules), then conditions and actions.
 OpProcessEvent(mr, mw, ro, op) ==
@@ -473,7 +479,16 @@ OpProcessEvent(mr, mw, ro, op) ==
                          i \in {j \in MatchingRules(mr[a], now, op.val) : ~RuleDisabled(mr[l], now, j)}} :
                      a \in vs.locs}
       tree == UNION {RuleNodes(mr, now, l, vs.locs, op.val, h.id, h.body, h.bss) : h \in hits}
-      ok == Out(mw, ro, [R0 EXCEPT !.found = hits, !.tree = tree])
+      \* actions that write do so in the event's location with the caller's keys
+      writable == Gate(<<GWrite(mr[l], now, ro[l], op.wk), GCap(mr[l]), GEnabled(mr[l], now)>>) = "ok"
+      made == {x.code : x \in UNION {DOMAIN nd.execs : nd \in tree}}
+                 \cap {c \in DOMAIN Acts : Acts[c].kind = "addfact"}
+      RECURSIVE AddAll(_, _)
+      AddAll(m, S) == IF S = {} THEN m
+                      ELSE LET c == CHOOSE x \in S : TRUE
+                           IN AddAll(PutItem(m, Acts[c].tag, Item(MadeFact(c), 0)), S \ {c})
+      mw2 == IF writable THEN SetLoc(mw, l, AddAll(mw[l], made)) ELSE mw
+      ok == Out(mw2, ro, [R0 EXCEPT !.found = hits, !.tree = tree, !.n = IF writable THEN 1 ELSE 0])
   IN IF vs.err THEN {Out(mw, ro, Resp("error"))}
      ELSE IF bad # {} THEN {Out(mw, ro, Resp("error"))}
      ELSE IF dupMust # {} THEN {Out(mw, ro, Resp("error"))}
